@@ -111,3 +111,24 @@ func (r *Router) VerifAge(d time.Duration) {
 func (r *Router) VerifCleanConnStates() {
 	r.cleanConnStates()
 }
+
+// VerifExpirePongs lets every pong ping the router is waiting for run out of
+// its 30 s now.
+// Verification hook: only compiled with the "verif" build tag.
+func (h *PingPongHandler) VerifExpirePongs() (n int) {
+	h.activeLock.Lock()
+	defer h.activeLock.Unlock()
+
+	for _, st := range h.active {
+		st.expires = time.Now().Add(-time.Second)
+		n++
+	}
+	return n
+}
+
+// VerifCleanPingHandlers does what the "clean ping handlers" worker does on
+// each of its ticks (once a minute).
+// Verification hook: only compiled with the "verif" build tag.
+func (r *Router) VerifCleanPingHandlers(w *mgr.WorkerCtx) {
+	r.cleanPingHandlers(w)
+}
